@@ -41,6 +41,7 @@ func init() {
 			"(D7) atomic window update: behind UpdateOutOfStoreGroupReferences the read of the recorded first/last counters, every Put/Delete of a reference and the write of the new first/last record run with the store's message mutex write-locked on every call path, and the mutex is not released between two of them (read-modify-write of the window in one critical section). " +
 			"(D8) the window follows authenticated messages only: every call of UpdateOutOfStoreGroupReferences with a message's Counter is dominated on every call path by the accepting side of the call that opened and authenticated that message (OpenEnvelopePayload on the log path, a function whose success returns all pass an accepted Verify on the push path). " +
 			"(D9) registration window: a call of UpdateOutOfStoreGroupReferences whose counter is not a message's Counter must read it from the very DeviceChainKey value that is written to the chain-key namespace before the call (or from a chain key read from the store); the written value is tracked through module helpers (a helper that stores its parameter: the argument; a helper that stores a key it computed: the value it returns on every success return, nil meaning nothing written, whatever other results accompany it), to depth 3, looking through local cells such as named results spilled by a defer: the window is centred on the persisted, window-advanced counter, which is what puts every precomputed key of a newly registered sender inside it; a counter of any other origin is an analysis failure. " +
+			"Sources (D3 cid-source, D5 store side, D6) are stated in terms of the entry point: a helper entered through a single static call site inside the push-open scope (or the reference-store scope) has its non-message parameters (keys, CIDs, counters, counter lists) substituted by the arguments of that call, results of module decode/compute helpers looked into; protocol messages are terminal (roles are written Type.Field on them); the sender device key is a key decoded from a DevicePk field. " +
 			"D2's Verify clauses are judged per push-path call site: parameters of a (shared) helper are mapped to the arguments of the call chain that starts at the push entry point, never to the union of all callers. " +
 			"Not decided: the window statement for all histories (loop arithmetic over runtime data), absence of network access, that NaCl/Ed25519 reject every altered bit, equality of payload bytes for all sizes.",
 		Trusted:     []string{"nacl/secretbox, Ed25519 (libp2p crypto), HKDF/SHA3", "go/packages+go/ssa (x/tools v0.29.0)", "go-datastore Get/Put/Delete semantics", "effects identified by the namespace constants of pkg/secretstore"},
@@ -65,14 +66,140 @@ func c14TypeName(t types.Type) string {
 	return types.TypeString(t, nil)
 }
 
+// c14Chains: for the helpers of an entry point (push open, reference store, push seal) that are
+// entered through exactly one static call site inside that entry point's own scope, the call
+// chain from the entry point. Sources of a value are then stated in terms of the entry point:
+// a helper parameter stands for the argument of that call, never for the union of all callers.
+type c14Chains map[*ssa.Function][]c14Frame
+
+func c14ChainsOf(w *World) c14Chains {
+	ch, _ := w.memo["c14chains"].(c14Chains)
+	return ch
+}
+
+// c14AddChains records the chains below root over the functions accepted by inScope.
+func c14AddChains(w *World, root *ssa.Function, inScope func(*ssa.Function) bool) {
+	ch := c14ChainsOf(w)
+	if ch == nil {
+		ch = c14Chains{}
+		w.memo["c14chains"] = ch
+	}
+	// call sites per callee among the in-scope functions reachable from root
+	sites := map[*ssa.Function][]*ssa.Call{}
+	seen := map[*ssa.Function]bool{root: true}
+	q := []*ssa.Function{root}
+	for len(q) > 0 {
+		f := q[0]
+		q = q[1:]
+		for _, b := range f.Blocks {
+			for _, in := range b.Instrs {
+				call, ok := in.(*ssa.Call)
+				if !ok {
+					continue
+				}
+				g := staticCallee(call.Common())
+				if g == nil || g == root || g.Blocks == nil || !inScope(g) {
+					continue
+				}
+				sites[g] = append(sites[g], call)
+				if !seen[g] {
+					seen[g] = true
+					q = append(q, g)
+				}
+			}
+		}
+	}
+	if _, has := ch[root]; !has {
+		ch[root] = []c14Frame{{root, nil}}
+	}
+	for changed := true; changed; {
+		changed = false
+		for g, cs := range sites {
+			if len(cs) != 1 {
+				continue
+			}
+			if _, done := ch[g]; done {
+				continue
+			}
+			if up, ok := ch[cs[0].Parent()]; ok && len(up) < 6 {
+				ch[g] = append(append([]c14Frame(nil), up...), c14Frame{g, cs[0]})
+				changed = true
+			}
+		}
+	}
+}
+
+// c14Up: v of fn as the value it denotes along fn's chain (bare parameters replaced by the
+// call-site arguments), with the function that value lives in and the chain up to it.
+func c14Up(w *World, fn *ssa.Function, v ssa.Value) (ssa.Value, *ssa.Function, []c14Frame) {
+	frames := c14ChainsOf(w)[fn]
+	if len(frames) == 0 {
+		return c14Resolve(v, 0), fn, nil
+	}
+	v2, f2 := c14ResolveUp(v, frames)
+	for i := len(frames) - 1; i >= 0; i-- {
+		if frames[i].fn == f2 {
+			return v2, f2, frames[:i+1]
+		}
+	}
+	return v2, f2, nil
+}
+
 // c14Roles: the parameter-rooted sources of v in fn as "Type" / "Type.Field.Sub" (parameter
-// names do not matter), sorted; plus the whole root set.
+// names do not matter), sorted; plus the root set. When fn is a helper on a recorded chain the
+// sources are those of the chain's entry point: parameters are substituted by the arguments
+// of the call that entered the helper (results of module helpers are looked into).
 func c14Roles(w *World, fn *ssa.Function, v ssa.Value, inline bool) ([]string, RootSet) {
+	v2, f2, frames := c14Up(w, fn, v)
+	seen := map[string]bool{}
+	rs := c14RolesOn(w, f2, v2, inline, frames, seen, 0)
+	var out []string
+	for k := range seen {
+		out = append(out, k)
+	}
+	sort.Strings(out)
+	return out, rs
+}
+
+// c14IsAnchorType: protocol messages (and the store itself) are what roles are expressed in:
+// "OutOfStoreMessage.Sig" is a terminal role whichever function holds the message, so a
+// parameter of such a type is never substituted by the caller's (usually local) object.
+func c14IsAnchorType(t types.Type) bool {
+	t = types.Unalias(t)
+	if p, ok := t.(*types.Pointer); ok {
+		t = types.Unalias(p.Elem())
+	}
+	n, ok := t.(*types.Named)
+	if !ok || n.Obj().Pkg() == nil {
+		return false
+	}
+	pp := n.Obj().Pkg().Path()
+	return pp == pkgTypes || pp == pkgSecret
+}
+
+// c14RolesLocal: sources of v in fn's own terms (no chain substitution).
+func c14RolesLocal(w *World, fn *ssa.Function, v ssa.Value, inline bool) ([]string, RootSet) {
+	seen := map[string]bool{}
+	rs := c14RolesOn(w, fn, c14Resolve(v, 0), inline, nil, seen, 0)
+	var out []string
+	for k := range seen {
+		out = append(out, k)
+	}
+	sort.Strings(out)
+	return out, rs
+}
+
+func c14RolesOn(w *World, fn *ssa.Function, v ssa.Value, inline bool, frames []c14Frame, seen map[string]bool, depth int) RootSet {
 	v = c14Resolve(v, 0)
 	rs := rootsOf(provCfg{W: w, InlineResults: inline}, v)
-	seen := map[string]bool{}
+	out := RootSet{}
+	var call *ssa.Call
+	if n := len(frames); n > 0 && frames[n-1].fn == fn && depth < 6 {
+		call = frames[n-1].call
+	}
 	for k := range rs {
 		if !strings.HasPrefix(k, "param:") {
+			out.add(k)
 			continue
 		}
 		name := strings.TrimPrefix(k, "param:")
@@ -82,29 +209,42 @@ func c14Roles(w *World, fn *ssa.Function, v ssa.Value, inline bool) ([]string, R
 		}
 		found := false
 		for f := fn; f != nil && !found; f = f.Parent() {
-			for _, p := range f.Params {
-				if p.Name() == base {
+			for pi, p := range f.Params {
+				if p.Name() != base {
+					continue
+				}
+				found = true
+				if f == fn && call != nil && pi < len(call.Common().Args) && !c14IsAnchorType(p.Type()) {
+					// substitute by the argument of the entering call, in the caller's terms
+					sub := map[string]bool{}
+					srs := c14RolesOn(w, call.Parent(), call.Common().Args[pi], true, frames[:len(frames)-1], sub, depth+1)
+					for r := range sub {
+						seen[r+rest] = true
+					}
+					for r := range srs {
+						if !strings.HasPrefix(r, "param:") && !strings.HasPrefix(r, "base:") {
+							out.add(r)
+						}
+					}
+				} else {
 					seen[c14TypeName(p.Type())+rest] = true
-					found = true
+					out.add(k)
 				}
 			}
 			for _, p := range f.FreeVars {
 				if p.Name() == base && !found {
 					seen[c14TypeName(p.Type())+rest] = true
+					out.add(k)
 					found = true
 				}
 			}
 		}
 		if !found {
 			seen["?"+name] = true
+			out.add(k)
 		}
 	}
-	var out []string
-	for k := range seen {
-		out = append(out, k)
-	}
-	sort.Strings(out)
-	return out, rs
+	return out
 }
 
 // c14Resolve: a read of field f of a struct allocated in the same function, where f is stored
@@ -158,6 +298,12 @@ func c14Resolve(v ssa.Value, depth int) ssa.Value {
 		return c14Resolve(stored, depth+1)
 	}
 	return v
+}
+
+// c14IsPlainField: v is a plain field read chain from a parameter (no arithmetic on it).
+func c14IsPlainField(v ssa.Value) bool {
+	_, ok := accessPath(c14Resolve(v, 0))
+	return ok
 }
 
 func c14Only(roles []string, want string) bool { return len(roles) == 1 && roles[0] == want }
@@ -573,6 +719,15 @@ func runC14(c *Ctx) {
 	}
 	c.count("push-scope functions", len(pushScope))
 	c.count("push-only functions", len(pushOnly))
+	// call chains: helpers of the reference store are stated in terms of UpdateOutOfStoreGroupReferences,
+	// the other push-only helpers in terms of OpenOutOfStoreMessage's callees' single call sites
+	updAll := w.reachableFuncs([]*ssa.Function{updR}, 4)
+	c14AddChains(w, updR, func(f *ssa.Function) bool { _, ok := updAll[f]; return ok && inSecret(f) })
+	isPushOnly := map[*ssa.Function]bool{}
+	for _, f := range pushOnly {
+		isPushOnly[f] = true
+	}
+	c14AddChains(w, openO, func(f *ssa.Function) bool { return isPushOnly[f] })
 
 	c14D1(c, ei, openO)
 	c14D2(c, openO)
@@ -845,6 +1000,9 @@ func c14ResolveUp(v ssa.Value, frames []c14Frame) (ssa.Value, *ssa.Function) {
 		}
 		args := fr.call.Common().Args
 		if p, ok := v.(*ssa.Parameter); ok && p.Parent() == fr.fn {
+			if c14IsAnchorType(p.Type()) {
+				return v, fr.fn // a protocol message: roles are stated on it, wherever it is held
+			}
 			if idx := c14ParamIndex(p); idx >= 0 && idx < len(args) {
 				v = args[idx]
 				continue
@@ -1164,7 +1322,8 @@ func c14D5(c *Ctx, ei *effectInfo, cs *c14Sites, openO, sealO, updR *ssa.Functio
 		case c14TypeName(pt) == "[]byte":
 			c.check(c14Only(roles, "MessageHeaders.DevicePk"), "D5", construct, posOf(refCall), "reference sender is the message headers' DevicePk", fmt.Sprintf("the sealed reference's sender is not the message headers' DevicePk (sources %v)", roles))
 		case c14TypeName(pt) == "uint64":
-			_, plain := accessPath(c14Resolve(a, 0))
+			pv, _, _ := c14Up(w, refIn, a)
+			_, plain := accessPath(c14Resolve(pv, 0))
 			c.check(c14Only(roles, "MessageHeaders.Counter") && plain, "D5", construct, posOf(refCall), "reference counter is the message headers' Counter", fmt.Sprintf("the sealed reference's counter is not exactly the message headers' Counter (sources %v)", roles))
 		}
 	}
@@ -1189,7 +1348,7 @@ func c14D5(c *Ctx, ei *effectInfo, cs *c14Sites, openO, sealO, updR *ssa.Functio
 		}
 		keyed := false
 		for _, rv := range rets {
-			roles, rs := c14Roles(w, refFn, rv, true)
+			roles, rs := c14RolesLocal(w, refFn, rv, true) // in the reference function's own terms
 			for _, r := range roles {
 				if _, ok := need[r]; ok {
 					need[r] = true
@@ -1213,18 +1372,23 @@ func c14D5(c *Ctx, ei *effectInfo, cs *c14Sites, openO, sealO, updR *ssa.Functio
 	putHint, delHint, getHint := eff("Put", nsHint), eff("Delete", nsHint), eff("Get", nsHint)
 	updScope := w.reachableFuncs([]*ssa.Function{updR}, 4)
 	var storeFns []*ssa.Function
+	nPutFns := 0
 	for _, fn := range sortedFuncs(updScope) {
 		if p := fnPkg(fn); p == nil || p.Path() != pkgSecret {
 			continue
 		}
-		for _, s := range ei.sitesWith(fn, putHint) {
-			if s.Direct {
-				storeFns = append(storeFns, fn)
-				break
+		hasPut := false
+		for _, s := range ei.sitesIn(fn) {
+			if s.Direct && (s.has(putHint) || s.has(delHint)) {
+				if !has(c14FnNames(storeFns), fnName(fn)) {
+					storeFns = append(storeFns, fn)
+				}
+				hasPut = hasPut || s.has(putHint)
 			}
 		}
+		nPutFns += map[bool]int{true: 1}[hasPut]
 	}
-	if len(storeFns) == 0 {
+	if nPutFns == 0 {
 		c.undecided("D5", fnName(updR)+"+Put[hint]", updR.Pos(), "no direct Put on the push-hint namespace behind UpdateOutOfStoreGroupReferences")
 		return refFn
 	}
@@ -1283,8 +1447,17 @@ func c14D5(c *Ctx, ei *effectInfo, cs *c14Sites, openO, sealO, updR *ssa.Functio
 				}
 			}
 		}
-		// window: two-sided around the counter parameter
-		c14Window(c, fn)
+	}
+	// window: two-sided around the counter parameter, in whichever function of the reference
+	// store offsets its counter parameter by the window size
+	nWin := 0
+	for _, fn := range sortedFuncs(updScope) {
+		if p := fnPkg(fn); p != nil && p.Path() == pkgSecret && c14Window(c, fn) {
+			nWin++
+		}
+	}
+	if nWin == 0 {
+		c.note("C14.D5: no function behind %s offsets a uint64 counter parameter by a non-constant size; window shape not analysed", fnName(updR))
 	}
 	// (d) lookup side uses the same key constructor
 	nGet := 0
@@ -1371,52 +1544,45 @@ func c14ReadsField(w *World, fn *ssa.Function, typ, field string, rs RootSet) bo
 
 // c14Window: in the function that stores references, the counter parameter must be both
 // advanced and moved back by the window size (known-bad shape: one-sided window).
-func c14Window(c *Ctx, fn *ssa.Function) {
-	var ctr *ssa.Parameter
-	for _, p := range fn.Params {
-		if b, ok := p.Type().Underlying().(*types.Basic); ok && b.Kind() == types.Uint64 {
-			if ctr != nil {
-				c.note("C14.D5: %s has several uint64 parameters; window shape not analysed", fnName(fn))
-				return
-			}
-			ctr = p
+func c14Window(c *Ctx, fn *ssa.Function) bool {
+	found := false
+	for _, ctr := range fn.Params {
+		if b, ok := ctr.Type().Underlying().(*types.Basic); !ok || b.Kind() != types.Uint64 {
+			continue
 		}
-	}
-	if ctr == nil {
-		c.note("C14.D5: %s has no uint64 counter parameter; window shape not analysed", fnName(fn))
-		return
-	}
-	add, sub := false, false
-	for _, b := range fn.Blocks {
-		for _, in := range b.Instrs {
-			bo, ok := in.(*ssa.BinOp)
-			if !ok || (bo.Op != token.ADD && bo.Op != token.SUB) {
-				continue
-			}
-			var other ssa.Value
-			if bo.X == ssa.Value(ctr) {
-				other = bo.Y
-			} else if bo.Y == ssa.Value(ctr) && bo.Op == token.ADD {
-				other = bo.X
-			} else {
-				continue
-			}
-			if _, isConst := other.(*ssa.Const); isConst {
-				continue
-			}
-			if bo.Op == token.ADD {
-				add = true
-			} else {
-				sub = true
+		add, sub := false, false
+		for _, b := range fn.Blocks {
+			for _, in := range b.Instrs {
+				bo, ok := in.(*ssa.BinOp)
+				if !ok || (bo.Op != token.ADD && bo.Op != token.SUB) {
+					continue
+				}
+				var other ssa.Value
+				if bo.X == ssa.Value(ctr) {
+					other = bo.Y
+				} else if bo.Y == ssa.Value(ctr) && bo.Op == token.ADD {
+					other = bo.X
+				} else {
+					continue
+				}
+				if _, isConst := other.(*ssa.Const); isConst {
+					continue
+				}
+				if bo.Op == token.ADD {
+					add = true
+				} else {
+					sub = true
+				}
 			}
 		}
+		if !add && !sub {
+			continue
+		}
+		found = true
+		c.check(add && sub, "D5", fnName(fn)+"+window", fn.Pos(), "references are kept on both sides of the last counter seen",
+			fmt.Sprintf("the reference window is one-sided (counter+size: %v, counter-size: %v): a message that arrives out of order on the other side of the last counter seen has no reference", add, sub))
 	}
-	if !add && !sub {
-		c.note("C14.D5: %s does not offset its counter parameter directly; window shape not analysed", fnName(fn))
-		return
-	}
-	c.check(add && sub, "D5", fnName(fn)+"+window", fn.Pos(), "references are kept on both sides of the last counter seen",
-		fmt.Sprintf("the reference window is one-sided (counter+size: %v, counter-size: %v): a message that arrives out of order on the other side of the last counter seen has no reference", add, sub))
+	return found
 }
 
 // c14Slide: every module function that calls the interface method openKey (log open) must, on
@@ -1723,8 +1889,14 @@ func c14D6(c *Ctx, ei *effectInfo, cs *c14Sites, openO, sealO, openP *ssa.Functi
 			pt := callee.Params[i].Type()
 			switch {
 			case isNamed(pt, "github.com/libp2p/go-libp2p/core/crypto", "PubKey"):
-				_, rs := c14Roles(w, fn, a, true)
-				if rs["call:"+keyUnmEd] {
+				kr, rs := c14Roles(w, fn, a, true)
+				isDev := rs["call:"+keyUnmEd] && len(kr) > 0
+				for _, r := range kr {
+					if !strings.HasSuffix(r, ".DevicePk") {
+						isDev = false
+					}
+				}
+				if isDev {
 					out = append(out, fmt.Sprintf("#%d=device-key", i))
 				} else {
 					out = append(out, fmt.Sprintf("#%d=other-key", i))
@@ -1737,7 +1909,7 @@ func c14D6(c *Ctx, ei *effectInfo, cs *c14Sites, openO, sealO, openP *ssa.Functi
 						isCtr = false
 					}
 				}
-				if _, plain := accessPath(c14Resolve(a, 0)); !plain {
+				if pv, _, _ := c14Up(w, fn, a); !c14IsPlainField(pv) {
 					isCtr = false
 				}
 				if isCtr {
@@ -2228,4 +2400,12 @@ func c14SameValue(a, b ssa.Value) bool {
 		}
 	}
 	return true
+}
+
+func c14FnNames(fns []*ssa.Function) []string {
+	var out []string
+	for _, f := range fns {
+		out = append(out, fnName(f))
+	}
+	return out
 }
